@@ -24,7 +24,7 @@ import (
 
 const farFuture = ^uint64(0)
 
-// altairEpoch is the fork epoch of the custom configurations: epochs 0,1 are phase0, 2.. are altair.
+// altairEpoch is the altair fork epoch of every custom configuration: epochs 0,1 are phase0, 2.. are altair.
 const altairEpoch = 2
 
 // cfgDef describes one small network configuration.
@@ -34,16 +34,21 @@ type cfgDef struct {
 	targetComm uint64 // TARGET_COMMITTEE_SIZE
 	syncSize   uint64 // SYNC_COMMITTEE_SIZE
 	spe        uint64 // SLOTS_PER_EPOCH (0: the minimal preset's 8)
+	// later fork epochs bellatrix, capella, deneb (nil: never). Altair is always at altairEpoch.
+	laterForks []uint64
 }
 
 var cfgDefs = map[string]cfgDef{
 	// 64 validators, 2 committees of 4 per slot (aggregator modulo 1), sync committee 32 (sync aggregator modulo 1)
-	"s": {"s", 64, 4, 32, 0},
+	"s": {"s", 64, 4, 32, 0, nil},
 	// 256 validators, 1 committee of 32 per slot (aggregator modulo 2), sync committee 128 (sync aggregator modulo 2)
-	"b": {"b", 256, 32, 128, 0},
+	"b": {"b", 256, 32, 128, 0, nil},
 	// 64 validators with mainnet's 32 slots per epoch (1 committee of 2 per slot): the deneb attestation window
 	// (up to 63 slots) is WIDER than the phase0 one here, on the 8-slot networks it is narrower
-	"m": {"m", 64, 4, 32, 32},
+	"m": {"m", 64, 4, 32, 32, nil},
+	// a finite fork schedule: altair 2, bellatrix 3, capella 5, deneb 6 (electra/fulu never): block signatures and fork
+	// digests around every fork activation epoch
+	"f": {"f", 64, 4, 32, 0, []uint64{3, 5, 6}},
 }
 
 type netCtx struct {
@@ -74,6 +79,11 @@ func makeSpec(d cfgDef) *common.Spec {
 	s.BELLATRIX_FORK_EPOCH = common.Epoch(farFuture)
 	s.CAPELLA_FORK_EPOCH = common.Epoch(farFuture)
 	s.DENEB_FORK_EPOCH = common.Epoch(farFuture)
+	if len(d.laterForks) == 3 {
+		s.BELLATRIX_FORK_EPOCH = common.Epoch(d.laterForks[0])
+		s.CAPELLA_FORK_EPOCH = common.Epoch(d.laterForks[1])
+		s.DENEB_FORK_EPOCH = common.Epoch(d.laterForks[2])
+	}
 	s.ELECTRA_FORK_EPOCH = common.Epoch(farFuture)
 	s.FULU_FORK_EPOCH = common.Epoch(farFuture)
 	if d.spe != 0 {
@@ -217,22 +227,54 @@ func oracleSigningRoot(objRoot [32]byte, domain [32]byte) [32]byte {
 	return sha(objRoot[:], domain[:])
 }
 
-// forkVersionAt: the fork schedule of the custom configuration, written out directly:
-// GENESIS_FORK_VERSION before altairEpoch, ALTAIR_FORK_VERSION from then on.
-func (c *netCtx) forkVersionAt(epoch uint64) [4]byte {
-	if epoch < altairEpoch {
-		return c.spec.GENESIS_FORK_VERSION
-	}
-	return c.spec.ALTAIR_FORK_VERSION
+type forkAt struct {
+	epoch   uint64
+	version [4]byte
 }
 
-// oracleGetDomain: get_domain(state, domain_type, epoch) for a state whose own epoch is stateEpoch:
+// schedule: the fork schedule of the configuration, written out directly from its definition (activation epoch,
+// fork version), ascending; index 0 is genesis.
+func (c *netCtx) schedule() []forkAt {
+	out := []forkAt{{0, c.spec.GENESIS_FORK_VERSION}, {altairEpoch, c.spec.ALTAIR_FORK_VERSION}}
+	if f := c.def.laterForks; len(f) == 3 {
+		out = append(out, forkAt{f[0], c.spec.BELLATRIX_FORK_VERSION}, forkAt{f[1], c.spec.CAPELLA_FORK_VERSION},
+			forkAt{f[2], c.spec.DENEB_FORK_VERSION})
+	}
+	return out
+}
+
+// forkIndexAt: index into schedule() of the fork active at the epoch.
+func (c *netCtx) forkIndexAt(epoch uint64) int {
+	sch := c.schedule()
+	idx := 0
+	for i, f := range sch {
+		if f.epoch <= epoch {
+			idx = i
+		}
+	}
+	return idx
+}
+
+func (c *netCtx) forkVersionAt(epoch uint64) [4]byte { return c.schedule()[c.forkIndexAt(epoch)].version }
+
+// neighbourForkVersion: the version of the fork before the one active at epoch (the one after it at genesis).
+func (c *netCtx) neighbourForkVersion(epoch uint64) [4]byte {
+	sch := c.schedule()
+	if i := c.forkIndexAt(epoch); i > 0 {
+		return sch[i-1].version
+	}
+	return sch[1].version
+}
+
+// oracleGetDomain: get_domain(state, domain_type, epoch) for a state whose own epoch is stateEpoch: state.fork is
+// (previous_version, current_version, epoch) of the fork active at stateEpoch;
 // fork_version = previous_version if epoch < fork.epoch else current_version.
 func (c *netCtx) oracleGetDomain(stateEpoch uint64, domType [4]byte, msgEpoch uint64) [32]byte {
-	var forkEpoch uint64
-	prev, cur := [4]byte(c.spec.GENESIS_FORK_VERSION), [4]byte(c.spec.GENESIS_FORK_VERSION)
-	if stateEpoch >= altairEpoch {
-		forkEpoch, cur = altairEpoch, c.spec.ALTAIR_FORK_VERSION
+	sch := c.schedule()
+	i := c.forkIndexAt(stateEpoch)
+	cur, prev, forkEpoch := sch[i].version, sch[i].version, sch[i].epoch
+	if i > 0 {
+		prev = sch[i-1].version
 	}
 	v := cur
 	if msgEpoch < forkEpoch {
@@ -307,12 +349,7 @@ func (c *netCtx) sign(kind sigKind, signer int, domType [4]byte, stateEpoch, msg
 		r := oracleSigningRoot(objRoot, c.oracleGetDomain(stateEpoch, dt, msgEpoch))
 		return c.rawSign(signer, r[:])
 	case sigWrongFork:
-		v := c.forkVersionAt(msgEpoch)
-		other := [4]byte(c.spec.ALTAIR_FORK_VERSION)
-		if v == other {
-			other = c.spec.GENESIS_FORK_VERSION
-		}
-		r := oracleSigningRoot(objRoot, oracleDomain(domType, other, c.gvr))
+		r := oracleSigningRoot(objRoot, oracleDomain(domType, c.neighbourForkVersion(msgEpoch), c.gvr))
 		return c.rawSign(signer, r[:])
 	case sigWrongMsg:
 		o := objRoot
